@@ -93,29 +93,55 @@ def check(ctx, rule: str = "CAP-1"):
         if d is None:
             continue
         num, den = strip_wrappers(d[0]), strip_wrappers(d[1])
-        if num.op == "getitem" and strip_wrappers(num.args[0]) is ys and num.args[1].op == "iter":
-            elems.append((c, num.args[1], den))
+        if num.op == "getitem" and strip_wrappers(num.args[0]) is ys:
+            its = [z for z in subterms(num.args[1]) if z.op == "iter"]
+            if len(its) == 1:
+                elems.append((c, its[0], num.args[1], den))
     if len(elems) != 1:
-        ctx.ob(rule, f"{q}: the stacked powers are summed as vhs_n[n] / (n + 1)!", False,
-               f"{len(elems)} comprehension(s) of the form ys[n] / f(n) over the scan output", fi)
+        # the terms are not summed as  ys[index] / divisor  inside a comprehension or an append loop: another way of
+        # writing the series, which this rule does not model
+        ctx.rep.note(f"{q}: no comprehension / append loop of the form ys[n] / f(n) over the scan output "
+                     f"({len(elems)} candidates); series-coefficient rules not applicable")
         return
-    c, it, den = elems[0]
+    c, it, idx, den = elems[0]
     rng = strip_wrappers(it.args[0])
     ra = call_parts(rng)[1] if rng.op == "call" and func_name(rng) == "builtins.range" else None
-    if ra is None or not (1 <= len(ra) <= 2):
-        raise AnalysisError(f"{q}: comprehension does not iterate over range(...)")
+    ia = affine(idx)
+    if ra is None or not (1 <= len(ra) <= 2) or ia is None or ia.get(it.uid) != 1 or set(ia) - {it.uid, None}:
+        ctx.rep.note(f"{q}: the summed terms are not indexed by range(...) + constant; series-coefficient rules not applicable")
+        return
+    shift = ia.get(None, Fraction(0))                  # output index = loop variable + shift
     r_lo, r_hi = (const(0), ra[0]) if len(ra) == 1 else (ra[0], ra[1])
-    ok_cnt = is_const(strip_wrappers(r_lo), 0) and same_affine(r_hi, n_out)
+    lo_a, hi_a, n_a = affine(r_lo), affine(r_hi), affine(n_out)
+
+    def plus(f, k):
+        g = dict(f)
+        g[None] = g.get(None, Fraction(0)) + k
+        return {k_: v for k_, v in g.items() if v != 0}
+    ok_cnt = lo_a is not None and hi_a is not None and n_a is not None and plus(lo_a, shift) == {} and \
+        plus(hi_a, shift) == n_a
     ctx.ob(rule, f"{q}: the sum runs over exactly the outputs the scan produces", ok_cnt,
-           f"indices range({show(r_lo)}, {show(r_hi)}) over {show(n_out)} outputs"
+           f"indices {show(idx)} for range({show(r_lo)}, {show(r_hi)}) over {show(n_out)} outputs"
            + ("" if ok_cnt else " (an out-of-range index is clamped by JAX: the last term is added twice / a term is lost)"),
            fi)
-    ok_fact = False
+    # the divisor of output m must be (m + 1)!:  factorial(loop variable + b) with b - shift == 1, or a running product
+    # p = 1; p *= n  over range(1, ...) (which is n!) with shift == -1
+    fact_arg = None
     if den.op == "call" and (func_name(den) or "").split(".")[-1] == "factorial":
-        a = strip_wrappers(call_parts(den)[1][0])
-        mm = m_binop(a, "+")
-        ok_fact = mm is not None and ((mm[0] is it and is_const(mm[1], 1)) or (mm[1] is it and is_const(mm[0], 1)))
-    ctx.ob(rule, f"{q}: output n (= vhs^(n+1) w) is divided by (n + 1)!", ok_fact, show(den, maxdepth=3)[:60], fi)
+        fa = affine(call_parts(den)[1][0])
+        if fa is not None and fa.get(it.uid) == 1 and not (set(fa) - {it.uid, None}):
+            fact_arg = fa.get(None, Fraction(0))
+    else:
+        mm = m_binop(den, "*")
+        if mm is not None:
+            for a_, b_ in ((mm[0], mm[1]), (mm[1], mm[0])):
+                a_, b_ = strip_wrappers(a_), strip_wrappers(b_)
+                if a_.op == "havoc" and a_.args[0] == it.args[1] and is_const(strip_wrappers(a_.args[2]), 1) and b_ is it \
+                        and lo_a == {None: Fraction(1)}:
+                    fact_arg = Fraction(0)             # running product over 1..n  ==  n!
+    ok_fact = fact_arg is not None and fact_arg - shift == 1
+    ctx.ob(rule, f"{q}: output n (= vhs^(n+1) w) is divided by (n + 1)!", ok_fact,
+           f"output {show(idx)} / {show(den, maxdepth=3)[:60]}", fi)
     # zeroth order and the two half steps
     tot = None
     for t in subterms(R):
